@@ -234,4 +234,18 @@ PROPS = {
         "level_text": "Theorems (Props/C16.lean) for operation sequences of any length and any initial counter state: content_only_history_independent, counter_numbers_increasing, counter_name_changes, encode_length, encode_mod; compile_path_counter_sites is checked by the kernel over the inventory regenerated from /repo on every run. The model is compared with the real namer and encoder. That a whole compilation only uses content-derived names (and ordered containers) is observed by compiling each query repeatedly, interleaved and from another thread, not proved.",
         "level_note": "Trusted: Lean kernel; the inventory script. Modelled, not verified: hashing of node content (DefaultHasher), BTreeMap iteration order, thread-local function tables: these are exercised by the determ stream only.",
     },
+    "C17": {
+        "lean_modules": ["QrlewModel.Props.C17"],
+        "translators": [{"module": "tr_dialects", "func": "gen_dialects"}],
+        "streams": [
+            {"name": "quote", "n_quick": 20000, "n_thorough": 1000000, "compare": True, "min_per_proc": 2000},
+            {"name": "dialect", "n_quick": 4000, "n_thorough": 300000, "compare": False, "min_per_proc": 500},
+        ],
+        "rule": "quote: strings of length 0..6 over {a, b, space, ', \", \\, `, [, ], é, %, .} x {literal, identifier} x {PostgreSQL, SQLite, MySQL, MS SQL, BigQuery translators}: rendered text AND the value read back by the sqlparser dialect the library reads that target with, both compared with the Lean model instantiated from the generated dialect table; dialect: relations compiled from generated queries (see C14), a third of them with output columns renamed to awkward names (reserved words, spaces, dots, quotes of each style, brackets, leading digits, non-ASCII) x the eight translators: text accepted by sqlparser's parser for the dialect; read back by the library with the same dialect (7 dialects) with the same output names, order and types; SQLite text run on a plain SQLite connection (no user functions, no textual shims) with the rows of the reference execution; non-trivial = compiled",
+        "trusted_base": COMMON_TRUST + ["tools/tr_dialects.py + `oracle dump dialects` (calls the real identifier() of each translator and the real sqlparser dialect methods)", "sqlparser 0.46 parsers stand for 'the dialect's parser' (no MySQL / MS SQL / BigQuery / Hive / Databricks / Redshift engine exists offline)", "SQLite 3.40 as the one offline engine"],
+        "assumptions": ["relations come from the SQL reader over the harness tables; relations produced by DP rewriting are rendered for SQLite in the C01/C04/C05/C09 streams but are not cycled through the other seven dialects here"],
+        "technique": "Lean 4 proof over a model of sqlparser's quoting and of its tokenizer with and without backslash escapes, instantiated by a dialect table regenerated from the real translators on every run (every reading dialect accepts the quote its translator writes; identifiers and literals read back unchanged under a decidable guard; kernel-checked counterexample for backslash in MySQL/BigQuery literals) + model/implementation correspondence on written text and read-back value + render / parse / read-back / execute checks across the eight translators",
+        "level_text": "Theorems (Props/C17.lean) for strings of any length and every row of the generated dialect table: writer_quote_readable, ident_round_trip, literal_round_trip, write_read, write_read_backslash, backslash_counterexample. The tokenizer model agrees with the five dialects exercised on every generated string (text and value read back). Function spellings, casts and LIMIT/TOP forms are not modelled: for them the check renders generated relations in all eight dialects, parses them with sqlparser, reads them back with the library and, for SQLite, executes them.",
+        "level_note": "Trusted: Lean kernel; the dialect dump. Modelled, not verified: per-dialect function tables (checked by the dialect stream only); engines other than SQLite are represented by sqlparser's dialect parsers.",
+    },
 }
